@@ -1,7 +1,7 @@
 SPECIFICATION Spec
 CONSTANTS MaxRuns = 2 MaxTouch = 99
-  Scens <- ScenPlain1
-  Settings <- SettingsAll
+  Scens <- ScenGroup2
+  Settings <- SettingsQuick
   CreatedSetsChanged = TRUE
   Reuses = {FALSE, TRUE}
   AutoReload = TRUE
